@@ -105,6 +105,18 @@ def run_scenario(bins, sc, keep=False):
             listener = taillib.Listener(fx, {"stdout": True, "stderr": True})
             if not listener.ready:
                 raise vlib.ToolError("listener did not come up")
+        if listener is not None and sc.get("listener") == "kill_mid":
+            # the listener dies while executables are still writing: that is no failure of any executable
+            import threading
+            def kill_listener():
+                deadline = time.time() + 25
+                while time.time() < deadline:
+                    if any(e["k"] == "start" for e in fx.events()):
+                        break
+                    time.sleep(0.01)
+                time.sleep(sc.get("listener_kill_after_s", 0.8))
+                listener.kill()
+            threading.Thread(target=kill_listener, daemon=True).start()
         t0 = time.time()
         env = dict(sc.get("env") or {})
         hook_trace = os.path.join(fx.root, "hooks.ndjson")
@@ -163,7 +175,7 @@ def run_scenario(bins, sc, keep=False):
             with open(hook_trace) as f:
                 hooks = sorted((json.loads(l) for l in f if l.strip()), key=lambda e: e["seq"])
         wall = time.time() - t0
-        if listener is not None:
+        if listener is not None and listener.p.poll() is None:
             listener.kill()
         # wait for stragglers (cancelled siblings keep running after monorail exits)
         deadline = time.time() + sc.get("straggler_wait", 3.0)
@@ -212,6 +224,18 @@ def run_scenario(bins, sc, keep=False):
         if rec["doc"]["ok"]:
             # the document names each command at its position
             rec["doc"]["names_ok"] = [cr.get("command") for cr in res["out"]["results"]] == list(cmds)
+        if sc.get("project"):
+            # a plan too wide for the judge is judged on a sub-plan: the record restricted to some of its targets (every
+            # ordering rule speaks about pairs of tasks, so what holds of the run holds of its restriction)
+            keep = {"/".join(P(x)) for x in sc["project"]}
+            inn = lambda t: "/".join(t) in keep
+            rec["cfg"] = {"targets": [dict(t, uses=[u for u in t["uses"] if "/".join(u[:1]) in keep or "/".join(u) in keep]) for t in rec["cfg"]["targets"] if inn(t["path"])]}
+            rec["pre"] = {"targets": [t for t in rec["pre"]["targets"] if inn(t)], "groups": [g2 for g2 in ([t for t in g if inn(t)] for g in rec["pre"]["groups"]) if g2]}
+            rec["kinds"] = [k for k in rec["kinds"] if inn(k[1])]
+            rec["events"] = [e for e in rec["events"] if inn(e["t"])]
+            if rec["doc"]["ok"]:
+                rec["doc"]["results"] = [[g2 for g2 in ([e for e in g if inn(e["t"])] for g in cr) if g2] for cr in rec["doc"]["results"]]
+            rec["projected_from"] = len(sc["targets"])
         if sc.get("interrupt"):
             rec["interrupted"] = True
         if sc.get("trust"):
@@ -538,7 +562,40 @@ def wide_scenario(width, seed=0, barrier=False, fail_at=None, mode="all"):
     return sc
 
 
-def detached_output_scenario(seed=0, ms=2300):
+def wide_slow_scenario(width, seed=0, ms=2500):
+    """C04 beyond any per-group quantity of a few hundred: `width` members in one group, ONE of them still working for a
+    while after the others have finished; `top` depends on all of them, a second command follows."""
+    rng = random.Random(seed)
+    members = ["w%03d" % i for i in range(width)]
+    ts = [{"path": m} for m in members] + [{"path": "top", "uses": list(members)}]
+    rng.shuffle(ts)
+    slow = rng.choice(members)
+    scripts = {"build|" + slow: [{"op": "out", "text": "slow member\n"}, {"op": "sleep", "ms": ms}, {"op": "exit", "code": 0}]}
+    return {"targets": ts, "commands": ["build", "test"], "kinds": {}, "fou": False, "scripts": scripts, "mode": "all",
+            "project": [slow, "top"] + [m for m in members if m != slow][:4],
+            "label": "wide-slow-%d" % width, "timeout": 200}
+
+
+def listener_killed_scenario(seed=0, nt=3):
+    """C06: a `log tail` listener is attached and dies while the executables are still printing: every executable exits 0,
+    so nothing has failed -- all `success`, the next command runs, exit status 0."""
+    rng = random.Random(seed)
+    ts = [{"path": "t%d" % i} for i in range(nt)] + [{"path": "after", "uses": ["t0"]}]
+    rng.shuffle(ts)
+    scripts = {}
+    for t in ts:
+        steps = []
+        for k in range(12):
+            steps.append({"op": "out", "text": "".join("%s out %d.%d\n" % (t["path"], k, j) for j in range(20))})
+            steps.append({"op": "out", "stream": "stderr", "text": "%s err %d\n" % (t["path"], k)})
+            steps.append({"op": "sleep", "ms": 250})
+        steps.append({"op": "exit", "code": 0})
+        scripts["work|" + t["path"]] = steps
+    return {"targets": ts, "commands": ["work", "then"], "kinds": {}, "fou": False, "scripts": scripts, "mode": "all",
+            "listener": "kill_mid", "listener_kill_after_s": 0.9, "label": "listener-killed-%d" % seed, "timeout": 120}
+
+
+def detached_output_scenario(seed=0, ms=3300):
     """C04: an executable that closes (redirects) both of its output streams and then keeps working for a while is still
     running: neither its dependents nor the next command may start before it has exited."""
     rng = random.Random(seed)
